@@ -1187,8 +1187,10 @@ def obligations():
          "   the unrolled specialisation Evaluation<N>.hpp computes, slot by slot, the very expression of the",
          "   generic loop form (Evaluation.hpp) at n = N.  A wrong index / sign / operand in one slot of one",
          "   header makes exactly that `rfl` fail. -/",
-         "import OpmVerif.Gen.DenseAd", "import Mathlib.Tactic.FinCases", "import Mathlib.Data.Fintype.Basic", "",
-         "set_option linter.unusedSectionVars false", "",
+         "import OpmVerif.Gen.DenseAd", "import Mathlib.Tactic.FinCases", "import Mathlib.Data.Fintype.Basic",
+         "import Mathlib.Tactic.Ring", "import Mathlib.Tactic.FieldSimp", "import Mathlib.Algebra.Field.Basic", "",
+         "set_option linter.unusedSectionVars false", "set_option linter.unusedTactic false",
+         "set_option linter.unreachableTactic false", "set_option linter.unusedSimpArgs false", "",
          "namespace OpmVerif.DenseAd.GenProofs", "open OpmVerif.DenseAd.Gen", "",
          "variable {α : Type} [Add α] [Sub α] [Mul α] [Div α] [Neg α] [OfNat α 0] [OfNat α 1] [OfNat α 2]", ""]
     args = {"EE": ("(a b : Fin (NN) → α)", "a b"), "E": ("(a : Fin (NN) → α)", "a"), "ES": ("(a : Fin (NN) → α) (c : α)", "a c"),
@@ -1204,6 +1206,25 @@ def obligations():
         L.append(f"  unfold U{n}.ops L.ops")
         L.append("  congr 1 <;> (repeat (apply funext; intro)) <;> rename_i i <;> fin_cases i <;> rfl")
         L.append("")
+    L.append("/-! ### the same over a field, robust against algebraically neutral rewrites of a header:")
+    L.append("    slot by slot `rfl`, else `ring` after unfolding -/")
+    L.append("section field")
+    L.append("variable {K : Type} [Field K]")
+    unf = ", ".join(f"L.{op}" for op in ALL_OPS)
+    L.append("macro \"slot_eq\" : tactic => `(tactic| first | rfl | (simp [" + unf + "] <;> ring1) | (field_simp [" + unf + "] <;> ring1))")
+    for n in range(1, NMAX + 1):
+        unfU = ", ".join(f"U{n}.{op}" for op in ALL_OPS)
+        L.append(f"theorem U{n}_ops_eq_loop_field : (U{n}.ops : ADOps K {n}) = L.ops := by")
+        L.append(f"  unfold U{n}.ops L.ops")
+        L.append(f"  congr 1 <;> (repeat (apply funext; intro)) <;> rename_i i <;> fin_cases i <;>")
+        L.append(f"    first | rfl | (simp [{unfU}, {unf}] <;> ring1)")
+    L.append("theorem D_ops_eq_loop_field {n : Nat} : (D.ops : ADOps K n) = L.ops := by")
+    unfD = ", ".join(f"D.{op}" for op in ALL_OPS)
+    L.append("  unfold D.ops L.ops")
+    L.append("  congr 1 <;> (repeat (apply funext; intro)) <;> rename_i i <;>")
+    L.append(f"    first | rfl | (by_cases h : i.val = 0 <;> simp [{unfD}, {unf}, h] <;> ring1)")
+    L.append("end field")
+    L.append("")
     L.append("/-! ### DynamicEvaluation.hpp: the same expressions as the generic loop form, for every n -/")
     for op, k in ALL_OPS.items():
         sig, app = args[k]
